@@ -425,6 +425,8 @@ func cmdCheck(args []string) int {
 	var nviol int64
 	var assumptions []string
 	noteSeen := map[string]bool{}
+	classWitness := map[string]bool{}
+	plain := 0
 	for _, r := range results {
 		c.Evaluations += r.Evaluations
 		c.Distinct += r.Distinct
@@ -443,7 +445,17 @@ func cmdCheck(args []string) int {
 			c.Exhaustive = false
 		}
 		for _, s := range r.Samples {
-			if len(c.Samples) < 8 {
+			// up to 8 plain samples, and one witness per (scenario, outcome class)
+			if m, ok := s.(map[string]any); ok && m["outcome_class"] != nil {
+				k := fmt.Sprint(m["scenario"], "|", m["outcome_class"])
+				if !classWitness[k] && len(classWitness) < 60 {
+					classWitness[k] = true
+					c.Samples = append(c.Samples, s)
+				}
+				continue
+			}
+			if plain < 8 {
+				plain++
 				c.Samples = append(c.Samples, s)
 			}
 		}
